@@ -90,6 +90,56 @@ func v2Signed(t types.V2Transaction) bool {
 	return false
 }
 
+// alienUC: unlock conditions in which some key is of an algorithm core does not know. Any bytes are a valid
+// signature for such a key (documented: "all other algorithms are considered valid by default"), so a
+// transaction spending through one is not bound to its content by that signature: tamper expectations
+// do not apply to it (like a transaction that needs no signature at all).
+func alienUC(uc types.UnlockConditions) bool {
+	for _, k := range uc.PublicKeys {
+		if k.Algorithm != types.SpecifierEd25519 && k.Algorithm != types.SpecifierEntropy {
+			return true
+		}
+	}
+	return false
+}
+
+func alienV1(t types.Transaction) bool {
+	for _, in := range t.SiacoinInputs {
+		if alienUC(in.UnlockConditions) {
+			return true
+		}
+	}
+	for _, in := range t.SiafundInputs {
+		if alienUC(in.UnlockConditions) {
+			return true
+		}
+	}
+	for _, r := range t.FileContractRevisions {
+		if alienUC(r.UnlockConditions) {
+			return true
+		}
+	}
+	return false
+}
+
+func alienV2(t types.V2Transaction) bool {
+	al := func(p types.SpendPolicy) bool {
+		uc, ok := p.Type.(types.PolicyTypeUnlockConditions)
+		return ok && alienUC(types.UnlockConditions(uc))
+	}
+	for _, in := range t.SiacoinInputs {
+		if al(in.SatisfiedPolicy.Policy) {
+			return true
+		}
+	}
+	for _, in := range t.SiafundInputs {
+		if al(in.SatisfiedPolicy.Policy) {
+			return true
+		}
+	}
+	return false
+}
+
 // tamperMutants builds every applicable tampered copy of block p.
 func (x *c03Ctx) tamperMutants(s *chain.Sim, p chain.BlockPlan) []mutant {
 	var out []mutant
@@ -108,6 +158,10 @@ func (x *c03Ctx) tamperMutants(s *chain.Sim, p chain.BlockPlan) []mutant {
 	// ------------------------------------------------------------ v1
 	for i, t := range b.Transactions {
 		i := i
+		if alienV1(t) {
+			x.c.Res.Count("skipped:alien-key-transaction:v1")
+			continue
+		}
 		if v1Signed(t) {
 			if len(t.SiacoinOutputs) > 0 {
 				add("v1-output-address", func(mb *types.Block) bool {
@@ -341,6 +395,10 @@ func (x *c03Ctx) tamperMutants(s *chain.Sim, p chain.BlockPlan) []mutant {
 	}
 	// ------------------------------------------------------------ v2
 	for i, t := range b.V2Transactions() {
+		if alienV2(t) {
+			x.c.Res.Count("skipped:alien-key-transaction:v2")
+			continue
+		}
 		i := i
 		txn := func(mb *types.Block) *types.V2Transaction { return &mb.V2.Transactions[i] }
 		if v2Signed(t) {
